@@ -78,7 +78,29 @@ def header_plan(model: Model, folder: Folder, fi: FuncInfo) -> tuple[list[dict],
             for e in val.elts:
                 if isinstance(e, ast.Call) and model.call_matches(mod, e, 'NotifyError'):
                     err = _notify_pair(folder, fi, e)
-        test = st.test
+        tests = [st.test]
+        if isinstance(st.test, ast.BoolOp) and isinstance(st.test.op, ast.Or):
+            vals = list(st.test.values)
+            tail = [v for v in vals if isinstance(v, ast.UnaryOp) and isinstance(v.op, ast.Not) and isinstance(v.operand, ast.Call)]
+            head = [v for v in vals if v not in tail]
+            if tail and head and vals.index(tail[0]) == len(head):
+                # `<range tests> or not validator(length)`: one exit, two checks (evaluated left to right)
+                first = head[0] if len(head) == 1 else ast.copy_location(ast.BoolOp(op=ast.Or(), values=head), st.test)
+                tests = [first] + tail
+        for test in tests:
+            plan.extend(_classify(model, folder, fi, st, test, err, facts, lname))
+    # body length expression
+    if len(reads) >= 2 and reads[1].args:
+        v = loc.resolve(reads[1].args[0])
+        if isinstance(v, ast.BinOp) and isinstance(v.op, ast.Sub):
+            facts['body_len'] = (lname(v.left), folder.fold(v.right, mod, fi.cls))
+    return plan, facts
+
+
+def _classify(model: Model, folder: Folder, fi: FuncInfo, st: ast.If, test: ast.AST, err, facts: dict, lname) -> list[dict]:  # noqa: ANN001
+    mod = fi.module
+    plan: list[dict] = []
+    if True:
         kind = 'other'
         consts: dict = {}
         txt = norm(test)
@@ -125,14 +147,9 @@ def header_plan(model: Model, folder: Folder, fi: FuncInfo) -> tuple[list[dict],
             # `if not number:` -> complete message without body
             if err is None:
                 facts['empty_body_exit'] = True
-                continue
+                return plan
         plan.append({'kind': kind, 'err': err, 'consts': consts, 'line': st.lineno, 'test': txt, 'node': st})
-    # body length expression
-    if len(reads) >= 2 and reads[1].args:
-        v = loc.resolve(reads[1].args[0])
-        if isinstance(v, ast.BinOp) and isinstance(v.op, ast.Sub):
-            facts['body_len'] = (lname(v.left), folder.fold(v.right, mod, fi.cls))
-    return plan, facts
+    return plan
 
 
 def check(model: Model, run: Run) -> None:
@@ -269,8 +286,9 @@ def check(model: Model, run: Run) -> None:
     run.rule(
         'C06.R4',
         '_reader_async accumulates exactly `number` bytes: buffer = bytearray(number), loop while offset < number, receive '
-        'into the view from offset, offset grows by the received count only, zero bytes leaves by raising, the whole view is returned',
-        floor=6,
+        'into the view from offset, offset grows by the received count only, zero bytes leaves by raising, the whole view is returned '
+        '(or, in the accumulate form, each sock_recv asks only for what is still missing)',
+        floor=1,
     )
     _r4_exact(model, run, folder)
 
@@ -307,7 +325,24 @@ def _r4_exact(model: Model, run: Run, folder: Folder) -> None:
         if isinstance(n, ast.Call) and isinstance(n.func, ast.Attribute) and n.func.attr in ('sock_recv_into',):
             recv = n
     if recv is None:
-        run.cannot('sock_recv_into call not found in _reader_async')
+        # the accumulate form: data = await loop.sock_recv(io, n); buffer += data
+        plain = [n for n in walk_no_nested(fi.node) if isinstance(n, ast.Call) and isinstance(n.func, ast.Attribute) and n.func.attr == 'sock_recv']
+        if not plain:
+            run.cannot('neither sock_recv_into nor sock_recv found in _reader_async')
+            return
+        rl = Loc(model, fi)
+        for c in plain:
+            got = rl.from_value(lambda v: (v.value if isinstance(v, ast.Await) else v) is c)
+            acc = [a.target.id for a in walk_no_nested(fi.node) if isinstance(a, ast.AugAssign) and isinstance(a.op, ast.Add) and isinstance(a.target, ast.Name) and isinstance(a.value, ast.Name) and a.value.id in got]
+            want = c.args[1] if len(c.args) >= 2 else None
+            reads_acc = want is not None and bool(set(acc) & rl.reads(want)) or (want is not None and rl.depends_on(want, acc))
+            run.check(
+                bool(acc) and reads_acc,
+                fi.qualname,
+                'each receive asks only for what is still missing (%s)' % (norm(want) if want is not None else None),
+                fi.loc(c),
+                'after a short read the next receive asks for the full %s bytes again: it takes the beginning of the NEXT message off the socket and the surplus is thrown away when the result is cut to size - the stream loses sync whenever TCP splits a message' % number,
+            )
         return
     sl = Slicer(model, fi)
     # target of the receive
